@@ -388,7 +388,7 @@ impl Ctx {
         let _t = SubTimer::new(sub);
         let shards = (self.threads as u64).min(total.max(1)) as usize;
         // interleave blocks so that every shard sees small indices first
-        let block: u64 = 256;
+        let block: u64 = (total / (shards as u64 * 8)).clamp(1, 256);
         let fails: Mutex<BTreeMap<String, (u64, Value, Value)>> = Mutex::new(BTreeMap::new());
         std::thread::scope(|s| {
             for shard in 0..shards {
@@ -534,6 +534,63 @@ impl Ctx {
         let mut st = self.stats.lock().unwrap();
         if st.samples.len() < 12 {
             st.samples.push(v);
+        }
+    }
+
+    /// Child mode: print a machine-readable summary instead of writing evidence.
+    pub fn finish_child(&self) -> i32 {
+        let st = self.stats.lock().unwrap();
+        let viol = self.violations.lock().unwrap();
+        let summary = json!({
+            "evaluations": st.evaluations,
+            "distinct_nontrivial": st.nontrivial.len() as u64 + st.nontrivial_counted,
+            "classes": st.classes,
+            "per_subcheck": st.sub,
+            "excluded_known": st.excluded_known,
+            "violations": viol.iter().map(|v| json!({"sig": v.sig, "replay": v.replay})).collect::<Vec<_>>(),
+            "inconclusive": *self.inconclusive.lock().unwrap(),
+        });
+        println!("CHILD-SUMMARY {}", summary);
+        if viol.is_empty() {
+            0
+        } else {
+            1
+        }
+    }
+
+    /// Run the same check in another build profile and merge what it covered.
+    pub fn merge_child(&self, exe: &std::path::Path, args: &[&str]) {
+        let out = std::process::Command::new(exe).args(args).env("VERIF_SEED", self.seed.to_string()).output();
+        let out = match out {
+            Ok(o) => o,
+            Err(e) => {
+                self.inconclusive.lock().unwrap().push(format!("cannot run {}: {}", exe.display(), e));
+                return;
+            }
+        };
+        let text = String::from_utf8_lossy(&out.stdout).to_string();
+        if out.status.code() == Some(2) || !text.contains("CHILD-SUMMARY ") {
+            self.inconclusive.lock().unwrap().push(format!("child {} was inconclusive: {}", exe.display(), text.lines().last().unwrap_or("")));
+            return;
+        }
+        let line = text.lines().find(|l| l.starts_with("CHILD-SUMMARY ")).unwrap();
+        let v: Value = serde_json::from_str(&line["CHILD-SUMMARY ".len()..]).unwrap_or(Value::Null);
+        {
+            let mut st = self.stats.lock().unwrap();
+            st.evaluations += v["evaluations"].as_u64().unwrap_or(0);
+            st.nontrivial_counted += v["distinct_nontrivial"].as_u64().unwrap_or(0);
+            if let Some(m) = v["excluded_known"].as_object() {
+                for (k, n) in m {
+                    *st.excluded_known.entry(k.clone()).or_default() += n.as_u64().unwrap_or(0);
+                }
+            }
+        }
+        self.put("second_profile", json!({"exe": exe.display().to_string(), "evaluations": v["evaluations"], "distinct_nontrivial": v["distinct_nontrivial"], "classes": v["classes"], "per_subcheck": v["per_subcheck"]}));
+        if let Some(vs) = v["violations"].as_array() {
+            let mut mine = self.violations.lock().unwrap();
+            for x in vs {
+                mine.push(Violation { sig: format!("release-profile:{}", x["sig"].as_str().unwrap_or("")), replay: x["replay"].as_str().unwrap_or("").to_string() });
+            }
         }
     }
 
